@@ -811,4 +811,146 @@ theorem union_base (a : Attrs) (Ts Bs : List TExpr) (hrel : All2 Ts Bs) (hreg : 
     | [d], _, hokB => exact (hokB d (List.mem_cons_self ..)).1
     | d1 :: d2 :: r, _, hokB => exact (wfB_borFlat _ hokB (by simp)).1
 
+/-! ### a node, and the tree -/
+
+theorem withoutOp_eq (o : Opts) (ho : o.unionOp = false) : withoutOp o = o := by
+  cases o; simp_all [withoutOp]
+
+theorem baseE_union_T (o : Opts) (ho : o.unionOp = false) (a : Attrs) (hte : a.ty = []) (t1 t2 : TExpr) (ts : List TExpr) :
+    baseE o a (t1 :: t2 :: ts) = (pickU (unionLoopE false (t1 :: t2 :: ts) [] a.isOptional).1,
+      (unionLoopE false (t1 :: t2 :: ts) [] a.isOptional).2) := by
+  simp only [baseE, hte, ho, ne_eq, not_true_eq_false, if_false, Bool.false_eq_true]
+  generalize unionLoopE false (t1 :: t2 :: ts) [] a.isOptional = r
+  obtain ⟨r1, r2⟩ := r
+  match r1 with
+  | [] => rfl
+  | [d] => rfl
+  | d1 :: d2 :: ds => rfl
+
+theorem baseE_union_B (o : Opts) (ho : o.unionOp = true) (a : Attrs) (hte : a.ty = []) (t1 t2 : TExpr) (ts : List TExpr) :
+    baseE o a (t1 :: t2 :: ts) = (pickB (unionLoopE true (t1 :: t2 :: ts) [] a.isOptional).1,
+      (unionLoopE true (t1 :: t2 :: ts) [] a.isOptional).2) := by
+  simp only [baseE, hte, ho, ne_eq, not_true_eq_false, if_false, if_true]
+  generalize unionLoopE true (t1 :: t2 :: ts) [] a.isOptional = r
+  obtain ⟨r1, r2⟩ := r
+  match r1 with
+  | [] => rfl
+  | [d] => rfl
+  | d1 :: d2 :: ds => rfl
+
+theorem relW_none : RelW eNone eNone := ⟨Rel.refl _, by decide, rfl, wfB_eNone⟩
+
+theorem all2_wfUL {Ts Bs : List TExpr} (h : All2 Ts Bs) : wfUL Ts = true :=
+  wfUL_of_mem (fun t ht => by obtain ⟨b, _, hr⟩ := forall2_left h t ht; exact hr.2.1)
+
+theorem node_rel (o : Opts) (ho : o.unionOp = false) (a : Attrs) (keyT keyB : Option TExpr) (Ts Bs : List TExpr)
+    (hrel : All2 Ts Bs) (hk : KeyRel keyT keyB) (ha : wfAttrs a Ts.length = true)
+    (hreg : a.ty = [] → 2 ≤ Ts.length → membersRegion a Ts Bs = true) :
+    RelW (hintNodeE o a keyT Ts).1 (hintNodeE (withOp o) a keyB Bs).1 := by
+  have hwbase := (base_typing o ho a Ts (all2_wfUL hrel) ha).2
+  have hop : (withOp o).unionOp = true := rfl
+  simp only [hintNodeE, ho, hop]
+  by_cases hte : a.ty = []
+  · cases hrel with
+    | nil =>
+      -- a leaf: literals or a reference, the same expression in both spellings
+      have e : baseE (withOp o) a [] = baseE o a [] := by simp [baseE]
+      rw [e]
+      have hs : spineOK (baseE o a []).1 = true := by
+        simp only [baseE, hte, ne_eq, not_true_eq_false, if_false]
+        split
+        · have : sLiteral ≠ sUnion := by decide
+          simp [spineOK, this]
+        · split <;> rfl
+      exact post_rel o a keyT keyB _ _ _ _ _ (baseRel_same a _ _ hwbase hs) hk
+    | @cons t b ts bs r1 rest =>
+      cases rest with
+      | nil =>
+        -- one member: its hint is passed through
+        have eT : baseE o a [t] = (t, a.isOptional) := by simp [baseE, hte]
+        have eB : baseE (withOp o) a [b] = (b, a.isOptional) := by simp [baseE, hte]
+        rw [eT, eB]
+        exact post_rel o a keyT keyB _ _ _ _ _ (baseRel_single a t b _ r1) hk
+      | @cons t2 b2 ts0 bs0 r2 rest' =>
+        have hrel : All2 (t :: t2 :: ts0) (b :: b2 :: bs0) := All2.cons r1 (All2.cons r2 rest')
+        have hreg' := hreg hte (by simp)
+        rw [baseE_union_T o ho a hte, baseE_union_B (withOp o) hop a hte]
+        by_cases hs : ∃ k ∈ t :: t2 :: ts0, isNoneE k = false
+        · exact post_rel o a keyT keyB _ _ _ _ _ (union_base a _ _ hrel hreg' hs) hk
+        · -- every member is `None`
+          have hallT : ∀ k ∈ t :: t2 :: ts0, isNoneE k = true := by
+            intro k hk'
+            cases hq : isNoneE k with
+            | true => rfl
+            | false => exact absurd ⟨k, hk', hq⟩ hs
+          have hpT : ∀ k ∈ t :: t2 :: ts0, print k = sNone := by
+            intro k hk'
+            obtain ⟨b, _, hr⟩ := forall2_left hrel k hk'
+            exact (print_none_iff k (wfB_of_wfU k hr.2.1)).mpr (hallT k hk')
+          have hpB : ∀ k ∈ b :: b2 :: bs0, print k = sNone := by
+            intro k hk'
+            obtain ⟨t, ht, hr⟩ := forall2_right hrel k hk'
+            exact (print_none_iff k hr.2.2.2).mpr (by rw [← hr.1.hNone]; exact hallT t ht)
+          rw [loop_all_none false _ _ hpT, loop_all_none true _ _ hpB]
+          have hnc : isCont a = false := by
+            cases hq : isCont a with
+            | false => rfl
+            | true =>
+              exfalso
+              simp only [membersRegion, hq, Bool.not_true, Bool.false_or, Bool.and_eq_true, List.any_eq_true,
+                Bool.not_eq_true'] at hreg'
+              obtain ⟨k, hk', hkn⟩ := hreg'.2.2
+              rw [hallT k hk'] at hkn; cases hkn
+          simp only [isCont, Bool.or_eq_false_iff] at hnc
+          have hbf : borFlat [] = TExpr.atom [] := by simp [borFlat, borFlat.mkBorE']
+          simp only [pickU, pickB, hbf, containerE, hnc.1.1, hnc.1.2, hnc.2, Bool.false_eq_true, if_false,
+            List.isEmpty_cons, Bool.not_false, Bool.or_true, Bool.true_or]
+          exact relW_none
+  · have eT : baseE o a Ts = (.atom a.ty, a.isOptional) := by simp [baseE, hte]
+    have eB : baseE (withOp o) a Bs = (.atom a.ty, a.isOptional) := by simp [baseE, hte]
+    rw [eT] at hwbase
+    rw [eT, eB]
+    exact post_rel o a keyT keyB _ _ _ _ _ (baseRel_same a _ _ hwbase rfl) hk
+
+theorem hintEL_map (o : Opts) (kids : List DT) : hintEL o kids = kids.map (fun k => (hintE o k).1) := by
+  induction kids with
+  | nil => rfl
+  | cons c cs ih => simp [hintEL, ih]
+
+/-- THE UNION-OPERATOR HALF OF `spelling_invariant`: for a tree with plain names inside `opRegion`,
+the structural rendering with `use_union_operator` and the one without are related — same
+alternatives up to repetition, same `None` — hence denote the same type. -/
+theorem rel_hint (o : Opts) (ho : o.unionOp = false) : ∀ t, wfTree t = true → opRegion o t = true →
+    RelW (hintE o t).1 (hintE (withOp o) t).1 := by
+  apply DT.ind
+  intro a key kids ihk ihl hw hr
+  simp only [wfTree, Bool.and_eq_true] at hw
+  obtain ⟨⟨ha, hwk⟩, hwl⟩ := hw
+  simp only [opRegion, Bool.and_eq_true] at hr
+  obtain ⟨⟨hrn, hrk⟩, hrl⟩ := hr
+  have hkids : All2 (hintEL o kids) (hintEL (withOp o) kids) := by
+    clear ha hwk ihk hrn hrk
+    induction kids with
+    | nil => exact All2.nil
+    | cons c cs ihc =>
+      simp only [wfTreeL, Bool.and_eq_true] at hwl
+      simp only [opRegionL, Bool.and_eq_true] at hrl
+      simp only [hintEL]
+      exact All2.cons (ihl c (List.mem_cons_self ..) hwl.1 hrl.1)
+        (ihc (fun x hx => ihl x (List.mem_cons_of_mem _ hx)) hwl.2 hrl.2)
+  have hkey : KeyRel (hintEO o key) (hintEO (withOp o) key) := by
+    cases key with
+    | none => simp [hintEO, KeyRel]
+    | some kk =>
+      simp only [wfTreeO] at hwk
+      simp only [opRegionO] at hrk
+      simp only [hintEO, KeyRel]
+      exact ihk kk rfl hwk hrk
+  simp only [hintE]
+  apply node_rel o ho a _ _ _ _ hkids hkey (by rw [hintEL_length]; exact ha)
+  intro hte h2
+  rw [hintEL_length] at h2
+  simp only [nodeRegion, hte, h2, and_self, if_true, withoutOp_eq o ho] at hrn
+  exact hrn
+
 end Dcg.Proofs.SpellOp
